@@ -126,11 +126,11 @@ def run(ctx):
                         ro = origin(ch, c['args'][1])
                         if o.params() == {1}:
                             rng = tuple(sorted(x for x in ro.consts() if isinstance(x, int)))
-                            if not rng and 'len' in ro.flags and not ro.has_arith():
-                                # the bound is the length of a constant byte string (`MARKER.len()`)
+                            if len(rng) < 2 and 'len' in ro.flags and not ro.has_arith():
+                                # a bound is the length of a constant byte string (`MARKER.len()`), the other (if any) a number
                                 bs_ = [x for x in ro.consts() if isinstance(x, str) and x.startswith('bytes ')]
-                                if len(bs_) == 1 and len(ro.consts()) == 1:
-                                    rng = (len(bs_[0][6:]) // 2,)
+                                if len(bs_) == 1 and len(ro.consts()) == 1 + len(rng):
+                                    rng = tuple(sorted(rng + (len(bs_[0][6:]) // 2,)))
                             # `header[..k]` / `header[k..]` on the 10-byte header: the missing end is the array's
                             kinds_ = {a[1].rsplit('::', 1)[-1] for a in ro.atoms if a[0] == 'agg'}
                             hl_ = re.search(r'\[u8; (\d+)\]', ch.local_ty(1) or '')
